@@ -138,14 +138,16 @@ static void pump(Exec &X)
 				if (badip) X.T.rx[i].push_back(fmt("acc id%u:refused", rx.ans.id));
 				if (!badip && rx.ans.payload.size() > 2) { size_t f = rx.ans.payload.size() - 2; if (f > X.maxf[i]) X.maxf[i] = f; }
 			}
+			if (getenv("VERIF_TRACE")) { refproto::DownHdr h{}; bool hh = rx.ans.ok && refproto::down_header(rx.ans.payload, h); fprintf(stderr, "%.6f   session %zu got id=%u q=%.8s payload %zuB%s\n", sim::W.now / 1e6, i, rx.ans.id, rx.ans.qname.c_str(), rx.ans.payload.size(), hh ? fmt(" [up %d/%d dn %d/%d last=%d]", h.up_seq, h.up_frag, h.dn_seq, h.dn_frag, h.last).c_str() : ""); }
 			if (rx.ans.ok && rx.ans.prefix) X.enc[i].insert((char)tolower((unsigned char)rx.ans.prefix));
-			sc.absorb(rx);
+			if (pingdata) sc.absorb(rx);   // only ping/data answers carry the downstream header
 		}
 	}
 }
 
 static void execute(const Plan &P, bool with_spoofs, Exec &X, Tape &t)
 {
+	if (getenv("VERIF_TRACE")) fprintf(stderr, "======== execution %s the spoofed datagrams\n", with_spoofs ? "with" : "without");
 	Env &E = X.E;
 	E.cfg = P.cfg;
 	E.cfg.nclients = 0;
@@ -176,6 +178,7 @@ static void execute(const Plan &P, bool with_spoofs, Exec &X, Tape &t)
 		if (prev) prev(dg);
 		Env &E = X.E;
 		if (dg.from_inst != E.s->srv->idx) return;
+		if (getenv("VERIF_TRACE") && !is_rawframe(dg.data)) { refproto::Answer ta; if (refproto::decode_answer(dg.data, ta) && ta.ok) { refproto::DownHdr h{}; refproto::down_header(ta.payload, h); std::string where; if (ta.payload.size() > 10) { Bytes fr(ta.payload.begin() + 2, ta.payload.end()); for (size_t k = 0; k < X.tunpk.size(); k++) { auto it = std::search(X.tunpk[k].first.begin(), X.tunpk[k].first.end(), fr.begin(), fr.end()); if (it != X.tunpk[k].first.end()) where += fmt(" = tunpkt#%zu[%zu..%zu) of %zu", k, (size_t)(it - X.tunpk[k].first.begin()), (size_t)(it - X.tunpk[k].first.begin()) + fr.size(), X.tunpk[k].first.size()); } } fprintf(stderr, "%.6f     server -> %s id=%u q=%.10s payload %zuB [up %d/%d dn %d/%d last=%d]%s\n", sim::W.now / 1e6, dg.dst.str().c_str(), ta.id, ta.qname.c_str(), ta.payload.size(), h.up_seq, h.up_frag, h.dn_seq, h.dn_frag, h.last, where.c_str()); } }
 		// (3) slot re-issue / VFUL
 		refproto::Answer a; bool dec = !is_rawframe(dg.data) && refproto::decode_answer(dg.data, a) && a.ok;
 		if (dec && !a.qname.empty() && tolower((unsigned char)a.qname[0]) == 'v' && a.payload.size() >= 9) {
@@ -252,7 +255,10 @@ static void execute(const Plan &P, bool with_spoofs, Exec &X, Tape &t)
 			E.note(fmt("session %d sends a packet to %s", a.who, a.sel > 0 ? "another session" : "the server"));
 			break;
 		}
-		case A_OPT: { Sess &s = X.ss[a.who]; if (!s.up) break; scn::ScriptClient &sc = E.S(s.src).sc; if (a.sel == 0) sc.do_option('l'); else if (a.sel == 1) sc.do_option('i'); else sc.do_set_fragsize(50 + (int)(a.salt % 900)); E.note(fmt("session %d option request", a.who)); break; }
+		case A_OPT: { Sess &s = X.ss[a.who]; if (!s.up) break; scn::ScriptClient &sc = E.S(s.src).sc; bool ok;
+			// a fragment size the session's record type can carry (a larger one cuts fragments off: the session's own misconfiguration)
+			int cap = (E.cfg.qtype == 6 || E.cfg.qtype == 7) ? 100 : ((E.cfg.qtype == 4 || E.cfg.qtype == 5) ? 900 : 1000);
+			int fsz = 20 + (int)(a.salt % (uint32_t)(cap - 19)); if (a.sel == 0) ok = sc.do_option('l'); else if (a.sel == 1) ok = sc.do_option('i'); else ok = sc.do_set_fragsize(fsz); E.note(fmt("session %d option request %s -> %s", a.who, a.sel == 0 ? "lazy" : (a.sel == 1 ? "immediate" : fmt("fragsize %d", fsz).c_str()), ok ? "ok" : "refused")); break; }
 		case A_SPOOF: {
 			if (!E.cfg.check_ip) break;            // without source checking a foreign request is allowed to act for the session
 			Sess &v = X.ss[a.victim]; if (!v.up) break;
@@ -307,7 +313,7 @@ static void execute(const Plan &P, bool with_spoofs, Exec &X, Tape &t)
 			if (owner >= 0) X.n_tun_live++; else X.n_tun_dead++;
 			sim::W.offer_tun(E.s->srv, pkt);
 			sim::W.run_for(3000);
-			E.note(fmt("tun packet for %s (%u.%u.%u.%u) expected %s", what, dst[0], dst[1], dst[2], dst[3], owner >= 0 ? "delivery to its owner only" : "no delivery"));
+			E.note(fmt("tun packet #%zu (%zu bytes, compressed %zu) for %s (%u.%u.%u.%u) expected %s", tun_counter - 1, pkt.size(), X.tunpk.back().first.size(), what, dst[0], dst[1], dst[2], dst[3], owner >= 0 ? "delivery to its owner only" : "no delivery"));
 			break;
 		}
 		case A_ADV: sim::W.run_for(a.dt); E.note(fmt("advance %.3f s", a.dt / 1e6)); break;
